@@ -288,7 +288,7 @@ def record_suite(suite, tier, seed, key):
         # one file per chunk of runs so that validation parallelises and replay files stay small
         nruns = runs[ti]
         nev = events[ti]
-        chunk = 1 if mode == "big" else (100 if mode == "sim" else 6)
+        chunk = 1 if mode == "big" else (100 if mode == "sim" else (121 if mode == "matrix" else 6))
         jobs = []
         for c in range(0, nruns, chunk):
             p = os.path.join(cdir, "r%03d.ndjson" % c)
@@ -306,6 +306,10 @@ def record_suite(suite, tier, seed, key):
                        % (drive_bin("debug"), elem, sd, min(chunk, nruns - c), nev, " ".join(flags + ["--first", str(c)]), p, drive_bin("release"), elem, p, pb)]
             elif mode == "tomb":
                 cmd = ["timeout", "600", drive_bin(profile), "tomb", "--elem", elem, "--seed", str(sd), "--first", str(c), "--runs",
+                       str(min(chunk, nruns - c))] + flags + ["--out", p]
+            elif mode == "matrix":
+                # one run = one (phase, operation) pair: deterministic, the seed plays no role
+                cmd = ["timeout", "600", drive_bin(profile), "matrix", "--elem", elem, "--first", str(c), "--runs",
                        str(min(chunk, nruns - c))] + flags + ["--out", p]
             elif mode == "meta":
                 cmd = ["timeout", "600", drive_bin(profile), "meta", "--elem", elem, "--seed", str(sd), "--first", str(c), "--cases",
